@@ -784,6 +784,23 @@ func (ex *Exec) appendVals(st *State, reach *Term, elem types.Type, s *Term, xs 
 	for i, x := range xs {
 		arr = Store(arr, vc.Arith("+", vc.SliceOff(s), vc.Arith("+", n, vc.IntConst(int64(i)), it), it), x)
 	}
+	if v, isLit := vc.SliceOff(s).IntVal(); !(isLit && v.Sign() == 0) && vc.quantDepth == 0 && vc.mode == ModeMath {
+		// symbolic offset: elements are read through the accessor sl.at(arr, off, i), an uninterpreted function
+		// with a pattern-guarded definition; state the relation between the new and the old backing array in
+		// terms of the accessor itself, triggered by reads of the NEW array (a consequence of the store above;
+		// without it E-matching has no term of the old array to instantiate hypotheses about the old slice on)
+		old := ex.sliceElems(st, elem, s)
+		narr := vc.Def("apparr", arr)
+		iq := Sym("i!q", vc.IntSort())
+		rhs := vc.SliceAt(old, vc.SliceOff(s), iq)
+		for i := len(xs) - 1; i >= 0; i-- {
+			rhs = Ite(Eq(iq, vc.Arith("+", n, vc.IntConst(int64(i)), it)), xs[i], rhs)
+		}
+		lhs := vc.SliceAt(narr, vc.SliceOff(s), iq)
+		q := &Term{Op: "forall", Bound: []*Term{iq}, Args: []*Term{Eq(lhs, rhs)}, Sort: SBool, Pats: [][]*Term{{lhs}}}
+		vc.Assume(reach, q)
+		arr = narr
+	}
 	r := ex.freshRef(st, reach, "append")
 	ex.setComp(st, c, Store(ex.comp(st, c, cs), r, arr))
 	nl := vc.Arith("+", n, vc.IntConst(int64(len(xs))), it)
